@@ -9,6 +9,10 @@ class FakeArr:
     def __repr__(self):
         return f"FakeArr({self.shape}, {self.dtype})"
 
+    # numpy and jax arrays are unhashable; replays run on numpy arrays, so the stand-in must not
+    # be usable as a dict key either (a cache keyed by leaf value behaves differently otherwise)
+    __hash__ = None
+
 
 class FakeArr2:
     """A second, unrelated array class."""
@@ -19,6 +23,8 @@ class FakeArr2:
 
     def __repr__(self):
         return f"FakeArr2({self.shape}, {self.dtype})"
+
+    __hash__ = None
 
 
 class SubArr(FakeArr):
